@@ -15,7 +15,6 @@ import (
 	"fmt"
 	"io"
 	"os"
-	"runtime"
 	"strconv"
 	"strings"
 	"time"
@@ -276,6 +275,7 @@ func runHistory(h *Header, c *HCase, oracle map[string]OResult) (res Result) {
 			}
 		case "render", "renderh":
 			ctx := h.ctx(op.C)
+			poolCaller(ctx)
 			var out string
 			var err error
 			if op.Op == "renderh" {
@@ -317,7 +317,7 @@ func runHistory(h *Header, c *HCase, oracle map[string]OResult) (res Result) {
 			eng(op.E).SetDebug(op.B)
 		case "gc":
 			trail = append(trail, "gc")
-			runtime.GC()
+			poolGC()
 		}
 	}
 	res.Src = strings.Join(trail, " ; ")
@@ -363,10 +363,13 @@ func cmdHistory(args []string) {
 		if len(c.Ops) == 0 {
 			continue
 		}
+		poolCase(c.Key)
 		res, hung := guarded(20*time.Second, func() Result { return runHistory(h, &c, oracle) }, func() Result { return hangResult(c.Prop, c.Key, c.Tags, "history") })
 		enc.Encode(res)
+		poolCaseDone()
 		w.Flush() // a fatal runtime error in the engine must not lose the results so far
 		if hung {
+			poolTraceClose()
 			os.Exit(3)
 		}
 	}
